@@ -577,11 +577,7 @@ impl Engine for C06 {
                     let n = inc.interfere.max(2) as usize;
                     let mut all = http_burst(srv.port, &scn.doc.0, None, n, 2, Duration::from_secs(30));
                     // and four single requests put on the wire in unusual but valid ways
-                    for k in 0..4u64 {
-                        set_http_style(inc.entropy.wrapping_add(k) | 1);
-                        all.push(srv.post(&scn.doc.0, None, Duration::from_secs(30)));
-                    }
-                    set_http_style(0);
+                    all.extend(http_post_sweep(srv.port, &scn.doc.0, None, Duration::from_secs(30)));
                     let alive = srv.alive();
                     drop(srv);
                     res.stats.frontend("server-burst");
